@@ -28,12 +28,17 @@ theorem paramOfSpec_post (env : Env) (ps : ParamSpec) (st : Schemas) (hinv : Inv
   obtain ⟨h1, h2, h3⟩ := gen_top env ps.ty st hinv
   refine ⟨h1, h2, ?_⟩
   simp only [paramOfSpec]
+  have e0 : GoodT (gen env [] [] ps.ty st).2 (setDflt ps.dflt (gen env [] [] ps.ty st).1) := by
+    unfold setDflt
+    cases ps.dflt with
+    | none => exact h3
+    | some d => exact Tree.All.modHead (f := fun h : Head => { h with dflt := some d }) (fun _ x => x) _ h3
+  generalize setDflt ps.dflt (gen env [] [] ps.ty st).1 = s0 at e0 ⊢
   have e1 : GoodT (gen env [] [] ps.ty st).2
-      (if ps.enum.isEmpty = true then (gen env [] [] ps.ty st).1
-       else (gen env [] [] ps.ty st).1.modHead fun h => { h with enum := ps.enum }) := by
+      (if ps.enum.isEmpty = true then s0 else s0.modHead fun h => { h with enum := ps.enum }) := by
     split
-    · exact h3
-    · exact Tree.All.modHead (f := fun h : Head => { h with enum := ps.enum }) (fun _ x => x) _ h3
+    · exact e0
+    · exact Tree.All.modHead (f := fun h : Head => { h with enum := ps.enum }) (fun _ x => x) _ e0
   split
   · exact Tree.All.modHead (f := fun h : Head => { h with format := ps.format }) (fun _ x => x) _ e1
   · exact e1
